@@ -33,7 +33,7 @@ def untouched(res, upd, conf, dst, n):
 def rec_inv(c):
     n = N0()
     src, dst = c.old.source_dict, c.old.dest_dict
-    res = c.local("result")
+    res = c.var("result")
     return If(In(n, c.done), decided(c, res, c.updates, c.conflicts, src, dst, n),
               untouched(res, c.updates, c.conflicts, dst, n))
 
